@@ -4,52 +4,161 @@ From Coq Require Import Lia.
 Open Scope N_scope.
 
 Lemma N_of_b_of_N x : N_of_b (b_of_N x) = x mod 256.
-Admitted.
+Proof.
+  unfold N_of_b, b_of_N.
+  destruct (Byte.of_N (x mod 256)) as [b|] eqn:E.
+  - apply Byte.to_of_N; exact E.
+  - apply Byte.of_N_None_iff in E.
+    assert (x mod 256 < 256) by (apply N.mod_lt; lia). lia.
+Qed.
 Lemma N_of_b_lt b : N_of_b b < 256.
-Admitted.
+Proof.
+  unfold N_of_b. pose proof (Byte.to_N_bounded b). lia.
+Qed.
 Lemma b_of_N_of_b b : b_of_N (N_of_b b) = b.
-Admitted.
+Proof.
+  unfold b_of_N. rewrite N.mod_small by apply N_of_b_lt.
+  unfold N_of_b. rewrite Byte.of_to_N. reflexivity.
+Qed.
 Lemma N_of_b_inj a b : N_of_b a = N_of_b b -> a = b.
-Admitted.
+Proof.
+  intro H. rewrite <- (b_of_N_of_b a), <- (b_of_N_of_b b), H. reflexivity.
+Qed.
 Lemma byte_eqb_eq a b : byte_eqb a b = true <-> a = b.
-Admitted.
+Proof.
+  unfold byte_eqb. split.
+  - apply Byte.byte_dec_bl.
+  - apply Byte.byte_dec_lb.
+Qed.
 Lemma byte_eqb_refl a : byte_eqb a a = true.
-Admitted.
+Proof. apply byte_eqb_eq. reflexivity. Qed.
 Lemma bytes_eqb_eq a b : bytes_eqb a b = true <-> a = b.
-Admitted.
+Proof.
+  revert b. induction a as [|x a IH]; intros [|y b]; cbn [bytes_eqb].
+  - split; reflexivity.
+  - split; discriminate.
+  - split; discriminate.
+  - rewrite Bool.andb_true_iff, byte_eqb_eq, IH. split.
+    + intros [-> ->]. reflexivity.
+    + intro H. inversion H. split; reflexivity.
+Qed.
 Lemma is_prefix_spec p s : is_prefix p s = true <-> exists r, s = p ++ r.
-Admitted.
+Proof.
+  revert s. induction p as [|x p IH]; intros s; cbn [is_prefix].
+  - split; [intros _; exists s; reflexivity | reflexivity].
+  - destruct s as [|y s].
+    + split; [discriminate | intros [r H]; discriminate H].
+    + rewrite Bool.andb_true_iff, byte_eqb_eq, IH. split.
+      * intros [-> [r ->]]. exists r. reflexivity.
+      * intros [r H]. cbn [app] in H. inversion H. split; [reflexivity | exists r; reflexivity].
+Qed.
 
 Lemma le_bytes_length n x : length (le_bytes n x) = n.
-Admitted.
-Lemma le_val_lt bs : le_val bs < 256 ^ Nlen bs.
-Admitted.
-Lemma le_val_le_bytes n x : x < 256 ^ N.of_nat n -> le_val (le_bytes n x) = x.
-Admitted.
-Lemma le_bytes_le_val bs : le_bytes (length bs) (le_val bs) = bs.
-Admitted.
-Lemma le_bytes_inj n x y : x < 256 ^ N.of_nat n -> y < 256 ^ N.of_nat n ->
-  le_bytes n x = le_bytes n y -> x = y.
-Admitted.
+Proof.
+  revert x. induction n as [|n IH]; intro x; cbn [le_bytes length].
+  - reflexivity.
+  - rewrite IH. reflexivity.
+Qed.
 
 Lemma Nlen_app {A} (a b : list A) : Nlen (a ++ b) = Nlen a + Nlen b.
-Admitted.
+Proof. unfold Nlen. rewrite app_length. lia. Qed.
 Lemma Nlen_nil {A} : Nlen (@nil A) = 0.
-Admitted.
+Proof. reflexivity. Qed.
 Lemma Nlen_cons {A} (x : A) l : Nlen (x :: l) = Nlen l + 1.
-Admitted.
+Proof. unfold Nlen. cbn [length]. lia. Qed.
 Lemma Nlen_0 {A} (l : list A) : Nlen l = 0 -> l = [].
-Admitted.
+Proof.
+  destruct l as [|x l]; [reflexivity|]. rewrite Nlen_cons. lia.
+Qed.
+
+Lemma pow256_succ n : 256 ^ N.of_nat (S n) = 256 * 256 ^ N.of_nat n.
+Proof.
+  rewrite Nat2N.inj_succ, N.pow_succ_r by lia. reflexivity.
+Qed.
+
+Lemma le_val_lt bs : le_val bs < 256 ^ Nlen bs.
+Proof.
+  induction bs as [|b r IH].
+  - cbn [le_val]. unfold Nlen. cbn [length]. change (256 ^ N.of_nat 0) with 1. lia.
+  - cbn [le_val]. unfold Nlen in *. cbn [length]. rewrite pow256_succ.
+    pose proof (N_of_b_lt b). lia.
+Qed.
+Lemma le_val_le_bytes n x : x < 256 ^ N.of_nat n -> le_val (le_bytes n x) = x.
+Proof.
+  revert x. induction n as [|n IH]; intros x Hx.
+  - cbn [le_bytes le_val]. change (256 ^ N.of_nat 0) with 1 in Hx. lia.
+  - cbn [le_bytes le_val]. rewrite pow256_succ in Hx.
+    rewrite N_of_b_of_N, IH.
+    + rewrite N.add_comm. symmetry. apply N.div_mod. lia.
+    + apply N.div_lt_upper_bound; lia.
+Qed.
+Lemma le_bytes_le_val bs : le_bytes (length bs) (le_val bs) = bs.
+Proof.
+  induction bs as [|b r IH].
+  - reflexivity.
+  - cbn [length le_bytes le_val]. pose proof (N_of_b_lt b) as Hb.
+    assert (Hm : (N_of_b b + 256 * le_val r) mod 256 = N_of_b b).
+    { rewrite N.mul_comm, N.mod_add by lia. apply N.mod_small; exact Hb. }
+    assert (Hd : (N_of_b b + 256 * le_val r) / 256 = le_val r).
+    { rewrite N.mul_comm, N.div_add by lia. rewrite N.div_small by exact Hb. lia. }
+    rewrite Hd, IH. f_equal.
+    unfold b_of_N. rewrite Hm. unfold N_of_b. rewrite Byte.of_to_N. reflexivity.
+Qed.
+Lemma le_bytes_inj n x y : x < 256 ^ N.of_nat n -> y < 256 ^ N.of_nat n ->
+  le_bytes n x = le_bytes n y -> x = y.
+Proof.
+  intros Hx Hy H. rewrite <- (le_val_le_bytes n x Hx), <- (le_val_le_bytes n y Hy), H.
+  reflexivity.
+Qed.
 
 Lemma take_n_spec n l :
   take_n n l = if Nat.leb n (length l) then Some (firstn n l, skipn n l) else None.
-Admitted.
+Proof.
+  revert l. induction n as [|n IH]; intro l.
+  - reflexivity.
+  - destruct l as [|x r].
+    + reflexivity.
+    + cbn [take_n length firstn skipn Nat.leb]. rewrite IH.
+      destruct (Nat.leb n (length r)); reflexivity.
+Qed.
 Lemma take_n_app n a b : length a = n -> take_n n (a ++ b) = Some (a, b).
-Admitted.
+Proof.
+  intros <-. induction a as [|x a IH].
+  - reflexivity.
+  - cbn [length app take_n]. rewrite IH. reflexivity.
+Qed.
 Lemma take_cnt_spec l n :
   take_cnt l n = if n <=? Nlen l then Some (firstn (N.to_nat n) l, skipn (N.to_nat n) l) else None.
-Admitted.
+Proof.
+  revert n. induction l as [|x r IH]; intro n.
+  - cbn [take_cnt]. change (Nlen (@nil byte)) with 0.
+    destruct (N.eqb_spec n 0) as [->|Hn].
+    + reflexivity.
+    + destruct (N.leb_spec n 0); [lia | reflexivity].
+  - cbn [take_cnt]. rewrite Nlen_cons.
+    destruct (N.eqb_spec n 0) as [->|Hn].
+    + destruct (N.leb_spec 0 (Nlen r + 1)); [reflexivity | lia].
+    + rewrite IH.
+      assert (Hs : N.to_nat n = S (N.to_nat (N.pred n))) by lia.
+      rewrite Hs. cbn [firstn skipn].
+      destruct (N.leb_spec (N.pred n) (Nlen r)); destruct (N.leb_spec n (Nlen r + 1));
+        try lia; reflexivity.
+Qed.
 Lemma take_cnt_app a b : take_cnt (a ++ b) (Nlen a) = Some (a, b).
-Admitted.
+Proof.
+  rewrite take_cnt_spec, Nlen_app.
+  destruct (N.leb_spec (Nlen a) (Nlen a + Nlen b)); [|lia].
+  unfold Nlen. rewrite Nat2N.id.
+  rewrite firstn_app, skipn_app, Nat.sub_diag, firstn_all, skipn_all.
+  cbn [firstn skipn app]. rewrite app_nil_r. reflexivity.
+Qed.
 Lemma take_cnt_short l n : Nlen l < n -> take_cnt l n = None.
-Admitted.
+Proof.
+  intro H. rewrite take_cnt_spec. destruct (N.leb_spec n (Nlen l)); [lia | reflexivity].
+Qed.
+
+Print Assumptions take_cnt_spec.
+Print Assumptions take_cnt_app.
+Print Assumptions take_cnt_short.
+Print Assumptions le_bytes_le_val.
+Print Assumptions le_val_le_bytes.
